@@ -2,7 +2,7 @@
 from engine.facts import CannotDecide, callee_is, strip_generics, path_matches
 from engine import cfg
 from engine.prov import const_int
-from .common import Table, client_dispatch_poll, reachable_local_fns, same_root, norm_path, guarded_by_variant, find_calls, loc, message_send_sites
+from .common import MAP_REMOVALS, Table, client_dispatch_poll, reachable_local_fns, same_root, norm_path, guarded_by_variant, find_calls, loc, message_send_sites
 
 EXPLANATION = (
     "Static pairing argument for request/response matching, decided on type-checked MIR of the real build: "
@@ -254,10 +254,10 @@ def run(ctx):
         for bb, t in g.calls():
             if callee_is(t, 'oneshot::Sender::send'):
                 roots = P.root(P.operand(g, t['args'][0]))
-                ok = bool(roots) and all(P.is_call(r, 'HashMap::remove', 'HashMap::remove_entry') and sender_field in P.fpath(p) for r, p in roots)
+                ok = bool(roots) and all(P.is_call(r, *MAP_REMOVALS) and sender_field in P.fpath(p) for r, p in roots)
                 R.ob('C01.4', ('client table completing removal', 'sender is the removed entry\'s'), ok,
                      'the sender completed is the one stored in the entry just removed', [g.loc(t)])
-                rm = lambda x: any(P.is_call(r, 'HashMap::remove', 'HashMap::remove_entry') for r, _ in P.root(x))
+                rm = lambda x: any(P.is_call(r, *MAP_REMOVALS) for r, _ in P.root(x))
                 gs = guarded_by_variant(F, P, g, bb, rm, ['Some', 'Continue'])
                 R.ob('C01.4', ('client table completing removal', 'miss path has no effect'), bool(gs),
                      'completion happens only on the Some edge of the removal; a miss neither sends nor removes anything else', [g.loc(t)])
@@ -265,13 +265,13 @@ def run(ctx):
     for g in table.bodies(comp):
         for bb, t in g.calls():
             if callee_is(t, 'DelayQueue::remove', 'DelayQueue::clear', 'HashMap::insert', 'HashMap::clear', 'HashMap::drain', 'util::Compact::compact', 'HashMap::shrink_to'):
-                rm = lambda x: any(P.is_call(r, 'HashMap::remove', 'HashMap::remove_entry') for r, _ in P.root(x))
+                rm = lambda x: any(P.is_call(r, *MAP_REMOVALS) for r, _ in P.root(x))
                 gs = guarded_by_variant(F, P, g, bb, rm, ['Some', 'Continue'])
                 R.ob('C01.4', ('client table completing removal', 'mutation only on hit', strip_generics(t['callee'])), bool(gs),
                      'table mutation inside the completing removal is guarded by the hit edge', [g.loc(t)])
     # miss path: nothing that can trap.  A response naming an id that matches no outstanding call (late, duplicate, spurious) is chosen by the peer: a
     # panic there ends the dispatch and with it every other call
-    rm = lambda x: any(P.is_call(r, 'HashMap::remove', 'HashMap::remove_entry') for r, _ in P.root(x))
+    rm = lambda x: any(P.is_call(r, *MAP_REMOVALS) for r, _ in P.root(x))
     traps = []
     n_miss_blocks = 0
     for g in table.bodies(comp):
